@@ -135,6 +135,37 @@ pub fn run(ctx: &mut Ctx) {
         let key = fresh_key(&mut rng);
         let pre = rng.chance(1, 3);
         let e = if pre { gen::obscure_random(&e0, &mut rng, 2, &key) } else { e0.clone() };
+        // every 6th case: extra assertion elements that are placeholders (compressed / elided) with FOREIGN
+        // digests which are simple functions of a present element's digest (words permuted, one half equal, one
+        // bit apart ...). Membership in the target set is decided on all 32 bytes.
+        let mut forced_sets: Vec<Vec<D32>> = Vec::new();
+        let e = if case % 6 == 3 {
+            let t0 = tree_of(&e);
+            let d = *rng.pick(&t0.all_digests());
+            let mut x = e.clone();
+            let mut rel = crate::adv::related_digests(&d);
+            rng.shuffle(&mut rel);
+            for (_, rd) in rel.iter().take(3) {
+                let ph = if rng.chance(1, 2) {
+                    let payload = Envelope::new(format!("foreign-{}", case)).tagged_cbor().to_cbor_data();
+                    Envelope::try_from(bc_components::Compressed::from_uncompressed_data(payload, Some(bc_components::Digest::from_data(*rd)))).unwrap()
+                } else {
+                    gen::elided_with_digest(rd)
+                };
+                x = x.add_assertion_envelope(ph).unwrap_or(x);
+            }
+            ctx.count("related_digest_placeholders");
+            // remove exactly d / reveal everything the envelope had before (and the new root)
+            forced_sets.push(vec![d]);
+            let mut all = t0.all_digests();
+            all.push(gen::root_digest(&x));
+            forced_sets.push(all.clone());
+            forced_sets.push(vec![d]);
+            forced_sets.push(all);
+            x
+        } else {
+            e
+        };
         let before = tree_of(&e);
         let has_hidden = before.flatten().iter().any(|(_, n)| matches!(n.kind, Kind::Elided | Kind::Encrypted));
         let pure = !before.has_obscured();
@@ -156,6 +187,7 @@ pub fn run(ctx: &mut Ctx) {
                 target_sets.push(pick_targets(&before, &mut rng));
             }
         }
+        target_sets.extend(forced_sets);
         for targets in target_sets {
             let tset: HashSet<D32> = targets.iter().cloned().collect();
             let revealing = rng.chance(1, 2);
